@@ -570,6 +570,24 @@ def c17(ctx):
         bh, rh = parse_kv(b)[1], parse_kv(r)[1]
         if bh == 'ok' and rh != 'ok':
             out.append((cid, 'a valid portable image is refused at address offset %d: %s' % (md['off'], rh)))
+    # the bytes a mapped portable value reports as its own (as_bytes) contain its whole extent (size())
+    for cid, l in ctx.ops('M'):
+        md = ctx.meta[cid]
+        if not shapes.declared_portable(ctx.shapes[md['shape']]):
+            continue
+        r = ctx.rres.get(cid)
+        if r is None:
+            continue
+        _, head, kv, flags = parse_kv(r)
+        if head != 'ok':
+            continue
+        n += 1
+        bl, sz = kv.get('blen', ''), kv.get('size', '')
+        if bl.startswith('ok:') and sz.startswith('ok:') and int(bl[3:]) < int(sz[3:]):
+            out.append((cid, 'as_bytes() has %s bytes but size() is %s: the bytes of the value do not contain its '
+                             'serialisation' % (bl[3:], sz[3:])))
+        if kv.get('rt') not in (None, 'ok'):
+            out.append((cid, "the value's own bytes (as_bytes) do not validate again: rt=%s" % kv.get('rt')))
     images, slack_reported = {}, set()
     for cid, l in ctx.ops('E'):
         md = ctx.meta[cid]
